@@ -3602,6 +3602,10 @@ let table =
     e_reach = Exported; e_ret = TPtr; e_params = (true :: []); e_self = None;
     e_slots = O; e_parsed = true; e_prelude = ((Guard (GAssert, (O :: []),
     RvNull)) :: (Body :: [])) } :: ({ e_name =
+    (X73 :: (X70 :: (X69 :: (X66 :: (X63 :: (X6f :: (X6e :: (X66 :: (X5f :: (X73 :: (X68 :: (X65 :: (X6c :: (X6c :: (X5f :: (X65 :: (X78 :: (X70 :: (X61 :: (X6e :: (X64 :: (X5f :: (X69 :: (X6e :: (X74 :: (X6f :: []))))))))))))))))))))))))));
+    e_reach = Helper; e_ret = TPtr; e_params = (true :: (true :: []));
+    e_self = None; e_slots = O; e_parsed = true; e_prelude = ((Guard
+    (GAssert, (O :: []), RvNull)) :: (Body :: [])) } :: ({ e_name =
     (X73 :: (X70 :: (X69 :: (X66 :: (X63 :: (X6f :: (X6e :: (X66 :: (X5f :: (X66 :: (X69 :: (X6e :: (X64 :: (X5f :: (X66 :: (X69 :: (X6c :: (X65 :: []))))))))))))))))));
     e_reach = Exported; e_ret = TPtr; e_params =
     (true :: (true :: (true :: []))); e_self = None; e_slots = O; e_parsed =
@@ -3652,7 +3656,7 @@ let table =
     e_reach = Exported; e_ret = TVoid; e_params = (true :: (false :: []));
     e_self = None; e_slots = O; e_parsed = true; e_prelude = ((Guard
     (GAssertV, (O :: []),
-    RvVoid)) :: (Body :: [])) } :: []))))))))))))))))))))))))))))))))))))))))))))))))))))))))))))))))))))))))))))))))))))))))))))))))))))))))))))))))))))))))))))))))))))))))))))))))))))))))))))))))))))))))))))))))))))))))))))))))))))))))))))))))))))))))))))))))))))))))))))))))))))))))))))))))))))))))))))))))))))))))))))))))))))))))))))))))))))))))))))))))))))))))))))))))))))))))))))))))))))))))))))))))))))))))))))))))))))))))))))))))))))))))))))))))))))))))))))))))))))))))))))))))))))))))))))))))))))))))))))))))))))))))))))))))))))))))))
+    RvVoid)) :: (Body :: [])) } :: [])))))))))))))))))))))))))))))))))))))))))))))))))))))))))))))))))))))))))))))))))))))))))))))))))))))))))))))))))))))))))))))))))))))))))))))))))))))))))))))))))))))))))))))))))))))))))))))))))))))))))))))))))))))))))))))))))))))))))))))))))))))))))))))))))))))))))))))))))))))))))))))))))))))))))))))))))))))))))))))))))))))))))))))))))))))))))))))))))))))))))))))))))))))))))))))))))))))))))))))))))))))))))))))))))))))))))))))))))))))))))))))))))))))))))))))))))))))))))))))))))))))))))))))))))))))))))))
 
 (** val named_cells : cell list **)
 
@@ -4190,4 +4194,4 @@ let exempt =
 (** val table_digest : fname **)
 
 let table_digest =
-  X61 :: (X63 :: (X61 :: (X62 :: (X33 :: (X61 :: (X30 :: (X35 :: (X35 :: (X61 :: (X32 :: (X30 :: (X33 :: (X61 :: (X64 :: (X37 :: [])))))))))))))))
+  X61 :: (X36 :: (X33 :: (X35 :: (X66 :: (X36 :: (X35 :: (X31 :: (X38 :: (X38 :: (X30 :: (X64 :: (X63 :: (X61 :: (X66 :: (X36 :: [])))))))))))))))
